@@ -118,6 +118,7 @@ static void NM(configure)(struct jpeg_decompress_struct *d, struct dec *s)
   if (s->quant) { d->quantize_colors = TRUE; d->two_pass_quantize = FALSE; d->dither_mode = JDITHER_NONE; d->desired_number_of_colors = 64; }
   if (s->ocs == 1 && d->num_components == 3) d->out_color_space = JCS_EXT_BGRA;
   else if (s->ocs == 2 && d->num_components == 3 && BITS == 8 && !s->quant) { d->out_color_space = JCS_RGB565; d->dither_mode = JDITHER_NONE; }
+  else if (s->ocs == 4 && d->num_components == 3 && BITS == 8 && !s->quant) d->out_color_space = JCS_RGB565;   /* dithered (565D kernels) */
   else if (s->ocs == 3 && d->num_components == 3) d->out_color_space = JCS_GRAYSCALE;
 }
 
@@ -204,13 +205,27 @@ static char *NM(run_ops)(struct jpeg_decompress_struct *dp, struct full *f, long
   int H = d.output_height, i;
   int rb = NM(rowbytes)(&d);
   int maxn = H + 8;
-  size_t stride = ((size_t)rb + 16 + 15) & ~(size_t)15;   /* 16-byte aligned rows */
-  unsigned char *buf = (unsigned char *)malloc(stride * maxn);
+  /* every row is its own allocation of EXACTLY the row size (malloc alignment = 16 bytes, see the jdcol565 note): the
+     ASan build traps on the first byte written past a row; the other builds append GUARD bytes and check them */
+#if defined(__SANITIZE_ADDRESS__)
+#define GUARD 0
+#elif defined(__has_feature)
+#if __has_feature(address_sanitizer)
+#define GUARD 0
+#else
+#define GUARD 64
+#endif
+#else
+#define GUARD 64
+#endif
+  unsigned char **rowmem = (unsigned char **)malloc(sizeof(unsigned char *) * maxn);
   SAMP **rows = (SAMP **)malloc(sizeof(SAMP *) * maxn);
+  long overrun = 0;
   int *prov = (int *)malloc(sizeof(int) * (maxn + 4)), *provy = (int *)malloc(sizeof(int) * (maxn + 4));
   int *cls = (int *)malloc(sizeof(int) * (H + 1));
   int nprov = 0, cmin = 1 << 30, cmax = -1;
   char *p = ops;
+  for (i = 0; i < maxn; i++) rowmem[i] = (unsigned char *)malloc((size_t)rb + GUARD + (rb + GUARD == 0));
   /* class of a full-decode row = smallest row with the same pixels inside the compared window */
   { int y, t; for (y = 0; y < H; y++) { cls[y] = y; for (t = 0; t < y; t++) if (cls[t] == t && NM(roweq)(f, f->pix + (size_t)f->rowb * y + (size_t)x0 * f->pxb, t, (int)x0, (int)w0, ex0, ex1)) { cls[y] = t; break; } } }
   o += sprintf(o, " | ops");
@@ -222,9 +237,9 @@ static char *NM(run_ops)(struct jpeg_decompress_struct *dp, struct full *f, long
       while (got < n && d.output_scanline < d.output_height) {
         JDIMENSION y0 = d.output_scanline, k; long want = n - got; int j;
         if (want > maxn) want = maxn;
-        for (j = 0; j < want; j++) rows[j] = (SAMP *)(buf + stride * j);
-        memset(buf, 0xA5, stride * want);
+        for (j = 0; j < want; j++) { rows[j] = (SAMP *)rowmem[j]; memset(rowmem[j], 0xA5, (size_t)rb + GUARD); }
         k = JR(&d, (SAMP **)rows, (JDIMENSION)want);
+        for (j = 0; j < want; j++) { int g; for (g = 0; g < GUARD; g++) if (rowmem[j][rb + g] != 0xA5) overrun++; }
         o += sprintf(o, "%s%u", first ? "" : "+", k); first = 0;
         for (j = 0; j < (int)k; j++) {
           int y = (int)y0 + j, found = -1, t;
@@ -262,11 +277,17 @@ static char *NM(run_ops)(struct jpeg_decompress_struct *dp, struct full *f, long
       if (bad < 4) o += sprintf(o, " y=%d:is=%d", provy[i], prov[i]);
       bad++;
     }
+    if (overrun) {
+      if (!bad) o += sprintf(o, " | px bad");
+      o += sprintf(o, " OVERRUN=%ld(bytes written past the end of a %d-byte output row)", overrun, rb); bad++;
+    }
     if (!bad) o += sprintf(o, " | px ok %d", nprov); else o += sprintf(o, " n=%d cols=%d-%d", bad, cmax < 0 ? -1 : (int)cmin, (int)cmax);
     o += sprintf(o, " | dup");
     for (i = 0; i < H && o - outbuf < OUTMAX - 2048; i++) if (cls[i] != i) o += sprintf(o, " %d:%d", i, cls[i]);
   }
-  free(buf); free(rows); free(prov); free(provy); free(cls);
+  for (i = 0; i < maxn; i++) free(rowmem[i]);
+  free(rowmem); free(rows); free(prov); free(provy); free(cls);
+#undef GUARD
   return o;
 #undef d
 }
